@@ -1,0 +1,20 @@
+//go:build verif
+
+package device
+
+// VerifHoldKeypairs takes the write lock of the peer's keypair set and returns
+// the function that releases it.  While it is held, a SendStagedPackets call for
+// this peer that has passed its entry test waits in keypairs.Current(), and
+// Peer.Stop waits in ZeroAndFlushAll: the verification harness (property C20)
+// uses it to place a Stop between the entry test and the hand-off of
+// SendStagedPackets.  Add-only; nothing here is reachable without the tag.
+func (device *Device) VerifHoldKeypairs(pk NoisePublicKey) (release func(), ok bool) {
+	device.peers.RLock()
+	peer := device.peers.keyMap[pk]
+	device.peers.RUnlock()
+	if peer == nil {
+		return nil, false
+	}
+	peer.keypairs.Lock()
+	return peer.keypairs.Unlock, true
+}
